@@ -78,6 +78,14 @@ class Ctx:
                 ', which the assumed conditions do not determine', loc,
                 detail))
             ok = None
+        elif self._delegated(loc):
+            self.undecided.append(Finding(
+                rule, construct, message + ' -- UNDECIDED: the function '
+                'now hands part of its work to ' + ', '.join(
+                    self._delegated(loc)) + ', which the baseline tree did '
+                'not have and which could not be inlined back; the rule '
+                'cannot be decided on the caller alone', loc, detail))
+            ok = None
         else:
             self.findings.append(Finding(rule, construct, message, loc,
                                          detail))
@@ -93,6 +101,17 @@ class Ctx:
                 s['fact'] = message
             self.samples.append(s)
         return ok
+
+    def _delegated(self, loc: str) -> List[str]:
+        if os.environ.get('VERIF_NO_UNDECIDED') or not loc:
+            return []
+        try:
+            from . import model
+            if model.CURRENT is None:
+                return []
+            return model.CURRENT.delegates_to_new(loc)
+        except Exception:
+            return []
 
     def fail(self, rule, construct, message, loc='', detail=None):
         return self.ob(rule, construct, False, message, loc, detail=detail)
